@@ -1,4 +1,5 @@
 """C06 — backlog never exceeds capacity; slots are always returned.  DESIGN §5 C06."""
+import abandon_proc
 import core
 import scen_server
 
@@ -19,6 +20,9 @@ def run(chk, props=None, prop=None, bias=None):
     core.e1_flow(chk, 'scen_server', 'ledger', {prop},
                  lambda rng: scen_server.gen_case(rng, chk.tier, rng.choice(b)), n, keyfn=keyfn,
                  corpus=scen_server.corpus(), extra_models=[('wakeup', scen_server.wakeup_lines)])
+    # E4: requests abandoned at every stage of their way through a real ProcessServlet (inputs beyond the pipe buffer,
+    # busy workers, very short deadlines): slots come back, later requests are answered, exit returns
+    abandon_proc.sample(chk, prop, 10 if chk.tier == 'quick' else 150)
     chk.cov['rule'] = ('cases = random (Server or AsyncServer, capacity, worker threads, 2-8 caller threads / asyncio tasks issuing call() with/without '
                        'backpressure and finite or unbounded deadlines, stream() callers with early close, failing '
                        'requests, service durations, chooser incl. early timer firing, seed) run on the real Server '
@@ -41,12 +45,20 @@ TRUSTED = [
 ]
 ASSUMPTIONS = [
     'the correspondence was checked on the schedules explored in this run only; the theorems quantify over all schedules of the model',
-    'process servlets are not scheduled (OS schedule); the ledger code is the same',
+    'process servlets are not scheduled (OS schedule; sampled by harness/abandon_proc.py with monitors only); the ledger code is the same',
 ]
 
 
 def replay(chk, data):
     import json
+    if data['case'].get('kind') == 'abandon-proc':
+        mons = abandon_proc.replay_case(chk, data['case'])
+        hits = [m for m in mons if m['prop'] == chk.prop]
+        print(json.dumps(mons)[:2000])
+        if hits:
+            print(f'VIOLATION property={chk.prop} replay=(replayed)')
+            return 1
+        return 0
     res = chk.run_cases('scen_server', [data['case']])
     case, r = res[0]
     hits = [m for m in r['monitors'] if m['prop'] == chk.prop]
